@@ -247,7 +247,7 @@ fn read_manifest(file: &Path) -> Result<(Vec<SlotInfo>, bool, Option<bool>), Str
 fn strip_locations(d: &Dump) -> Vec<(String, Leaf)> {
     d.0.iter()
         .map(|(p, l)| {
-            if p.starts_with("manifest/packinfo[") || p == "manifest/dirinfo" {
+            if p.starts_with("manifest/packinfo[") || p == "manifest/dirinfo" || p.starts_with("manifest/info_by_") {
                 if let Leaf::Val(s) = l {
                     let cut = s.find(" loc=").unwrap_or(s.len());
                     return (p.clone(), Leaf::Val(s[..cut].to_string()));
